@@ -183,3 +183,33 @@ Proof.
   apply andb_true_iff in H. destruct H as [H1 H2]. constructor; [|apply IH; exact H2].
   rewrite forallb_forall in H1. apply Forall_forall. intros y Hy. apply Hs. apply H1. exact Hy.
 Qed.
+
+(** * Reset restores the declared start values *)
+Theorem reset_restores m this other :
+  snd (step m this other OpReset) = map reset_value (msg_signals m) /\
+  snd (step m this other OpNew) = map reset_value (msg_signals m).
+Proof. split; reflexivity. Qed.
+
+(** * payload bytes at and beyond the message length stay zero when every signal lies inside the
+      first [msg_length] bytes *)
+Definition fits_message (m : message) : Prop :=
+  forall s v k, In s (msg_signals m) -> 0 <= k < 64 -> covers (write_of s v) k = true -> k < 8 * msg_length m.
+
+Theorem frame_zero_beyond_length m st k :
+  wf_message m -> fits_message m -> inv (msg_signals m) st = true -> 0 <= msg_length m ->
+  8 * msg_length m <= k < 64 -> pbit (fr_data (frame_of m st)) k = false.
+Proof.
+  intros Hwf Hfit Hinv Hlen Hk. rewrite frame_bits by (assumption || lia).
+  destruct (find (fun w => covers w k) (active_writes m st)) as [w|] eqn:F; [|reflexivity].
+  exfalso. apply find_some in F. destruct F as [Hin Hc].
+  unfold active_writes in Hin. apply in_app_or in Hin.
+  assert (Hsrc : exists s v, In s (msg_signals m) /\ w = write_of s v).
+  { destruct Hin as [Hin|Hin].
+    - apply in_map_iff in Hin. destruct Hin as ([s v] & <- & Hf). apply filter_In in Hf. destruct Hf as [Hf _].
+      apply in_combine_l in Hf. exists s, v. split; [exact Hf|reflexivity].
+    - destruct (mux_value_of m st); [|destruct Hin].
+      apply in_map_iff in Hin. destruct Hin as ([s v] & <- & Hf). apply filter_In in Hf. destruct Hf as [Hf _].
+      apply in_combine_l in Hf. exists s, v. split; [exact Hf|reflexivity]. }
+  destruct Hsrc as (s & v & Hs & ->).
+  specialize (Hfit s v k Hs ltac:(lia) Hc). lia.
+Qed.
